@@ -81,6 +81,20 @@ def strideValid (spec : Spec) (s : Stride) : Bool :=
         !(n.action.isSome && (match n.branches with | some b => b.type == "message" | none => false))
      | none => false)
 
+/-- does the node's action fail on these bindings? -/
+def actionFails (spec : Spec) (st : State) : Bool :=
+  match findNode st.node spec.nodes with
+  | some nd => (match nd.action with | some a => (execWrap a st.bs).err.isSome | none => false)
+  | none => false
+
+/-- C08 on one stride: the emissions are exactly those of the successfully completed action;
+    a failing action contributes nothing (a native action that hands back a partial execution
+    together with its error is outside the property: either outcome is accepted) -/
+def emitOk (spec : Spec) (frm : State) (s : Stride) : Bool :=
+  if !strideValid spec s then s.emitted.isEmpty
+  else if actionFails spec frm then s.emitted.isEmpty || vListEq s.emitted (actionEmissions spec frm)
+  else vListEq s.emitted (actionEmissions spec frm)
+
 /-- C05 / C07 / C08 / C18 conclusions on a walk observed from the implementation -/
 def walkOracles (spec : Spec) (st : State) (msgs : List V) (lim : Nat) (w : Walked) : List (String × Bool) :=
   let consumed := consumedOf w
@@ -112,8 +126,7 @@ def walkOracles (spec : Spec) (st : State) (msgs : List V) (lim : Nat) (w : Walk
       actionReturnsNoBindings spec s.frm ||
         (match t.bs with | some tb => permanentKept fb tb | none => false)
     | _, _ => true)
-  let emitExact := w.strides.all (fun s =>
-    if strideValid spec s then vListEq s.emitted (actionEmissions spec s.frm) else s.emitted.isEmpty)
+  let emitExact := w.strides.all (fun s => emitOk spec s.frm s)
   let errorSurfaced := w.strides.all (fun s =>
     match s.to with
     | some t =>
@@ -159,7 +172,7 @@ def stepOracles (spec : Spec) (st : State) (pending : Option V) (gs : Option Str
     | none => true
   let emitExact :=
     match gs with
-    | some g => if strideValid spec g then vListEq g.emitted (actionEmissions spec (stateCopy st)) else g.emitted.isEmpty
+    | some g => emitOk spec (stateCopy st) g
     | none => true
   let messageConsumes :=
     match gs with
